@@ -108,7 +108,7 @@ def generate(features=("std",), tag="std", quarantined=()):
     code = parts["20_code.rs"]
     post = "".join(parts[f] for f in sorted(parts) if f > "20_code.rs")
     try:
-        gen_code, srep = splice.splice("", code, ext_text, set(), quarantined=set(quarantined))
+        gen_code, srep = splice.splice("", code, ext_text, set(), quarantined=dict(quarantined) if isinstance(quarantined, dict) else {q: 1 for q in quarantined})
     except splice.SpliceError as e:
         raise Undecided("splice: %s" % e)
     if srep["errors"]:
